@@ -8,10 +8,10 @@ All statements are for arbitrary byte strings and lists, without any size bound.
 Full statement (FALSE of the real code, see the `_counterexample` theorems):
     for every list `vals` of non-empty values, every earlier lookup sequence and every host,
     parse succeeds and match(host) = true ↔ ∃ v ∈ vals, Matches v host.
-Proved: the same under `Valid v` for every value — after at most one leading dot comes a non-empty name that does not itself
-begin with a dot.  (The counterexamples are stated for the tree as it is: `rejectsMultiDot = false` is probed by running the
-staged code; a tree with the candidate fix refuses such values instead.)  Excluded region: values that begin with two dots (genuine defects: lost values, use-after-free / endless
-loop in Merge, missed matches) and the single value "." (not covered by the proof; no failure known).
+Proved: the same under `Wf v` for every value — the value does not begin with two dots (the single dot `.` is covered).
+(The counterexamples are stated for the tree as it is: `rejectsMultiDot = false` is probed by running the
+staged code; a tree with the candidate fix refuses such values instead.)  Excluded region: exactly the values that begin with two dots (genuine
+defects: lost values, use-after-free / endless loop in Merge, missed matches).
 -/
 import SquidModel.Acl.DomainMerge
 
@@ -40,7 +40,7 @@ theorem compare_spec (a b : Bytes) (ha : Valid a) (hb : Valid b) :
 /-- Overlapping well-formed values are nested and `IsSubset` tells the direction; `MakeCombinedValue` is never needed. -/
 theorem overlap_is_nesting (n o : Bytes) (hn : Valid n) (ho : Valid o) (h0 : Domain.compare n o = 0) :
     (isSubset n o = true ∧ ∀ k, In k n → In k o) ∨ (isSubset n o = false ∧ isSubset o n = true ∧ ∀ k, In k o → In k n) := by
-  rcases subset_spec hn ho ((compare_zero_iff hn ho).mp h0) with ⟨h1, h2, h3⟩ | ⟨h1, h2, h3, h4⟩
+  rcases subset_spec hn.ne_nil ho.ne_nil ((compare_zero_iff hn ho).mp h0) with ⟨h1, h2, h3⟩ | ⟨h1, h2, h3, h4⟩
   · exact Or.inl ⟨h1, fun k hk => hk.mono h2 h3⟩
   · exact Or.inr ⟨h1, h2, fun k hk => hk.mono h3 h4⟩
 
@@ -49,37 +49,48 @@ theorem splay_inorder_preserved {α : Type} (cmp : α → Int) (t : Tree α) :
     Tree.inorder (Tree.find cmp t).1 = Tree.inorder t :=
   Tree.inorder_find cmp t
 
-/-- `ACLDomainData::parse` accepts every list of well-formed values: Merge terminates, never reaches the `Assure` of
+/-- `ACLDomainData::parse` accepts every list of non-empty values that do not begin with two dots: Merge terminates, never reaches the `Assure` of
 MakeCombinedValue and never removes a value it cannot find. -/
-theorem parse_ok (vals : List Bytes) (hv : ∀ v ∈ vals, Valid v) : ∃ t ev, parse vals = .ok t ev := by
+theorem parse_ok (vals : List Bytes) (hv : ∀ v ∈ vals, Wf v) : ∃ t ev, parse vals = .ok t ev := by
   obtain ⟨t, ev, h, _⟩ := parse_spec vals hv
   exact ⟨t, ev, h⟩
 
-/-- After parse the stored values are pairwise disjoint, increasing and well-formed, and they cover exactly the keys covered by
-the configured values. -/
-theorem parse_invariant (vals : List Bytes) (hv : ∀ v ∈ vals, Valid v) :
-    ∃ t ev, parse vals = .ok t ev ∧ (Tree.inorder t).Pairwise Before ∧ (∀ s ∈ Tree.inorder t, Valid s) ∧
+/-- After parse the stored values are increasing and pairwise disjoint (except that a repeated `.` is stored repeatedly), none
+begins with two dots, and they cover exactly the keys covered by the configured values. -/
+theorem parse_invariant (vals : List Bytes) (hv : ∀ v ∈ vals, Wf v) :
+    ∃ t ev, parse vals = .ok t ev ∧ (Tree.inorder t).Pairwise Before' ∧ (∀ s ∈ Tree.inorder t, Wf s) ∧
       ∀ k, (∃ s ∈ Tree.inorder t, In k s) ↔ (∃ v ∈ vals, In k v) := by
   obtain ⟨t, ev, h, hh⟩ := parse_spec vals hv
   exact ⟨t, ev, h, hh.1.1, hh.1.2, hh.2⟩
 
-/-- **C41 (partial: values with two leading dots and the value "." excluded).**  For every list of well-formed values — any
-order, duplicates, overlaps — parse succeeds, and after any sequence of earlier lookups (each of which splays the tree)
+/-- **C41 (partial: values with two leading dots excluded).**  For every list of non-empty values none of which begins with two
+dots — any order, duplicates, overlaps — parse succeeds, and after any sequence of earlier lookups (each of which splays the tree)
 `match(host)` is true exactly when some configured value matches the host. -/
-theorem match_iff_partial (vals : List Bytes) (hv : ∀ v ∈ vals, Valid v) :
+theorem match_iff_partial (vals : List Bytes) (hv : ∀ v ∈ vals, Wf v) :
     ∃ t ev, parse vals = .ok t ev ∧
       ∀ (earlier : List Bytes) (host : Bytes),
         (matchHost (matchAll t earlier []).1 host).2 = true ↔ ∃ v ∈ vals, Matches v host := by
   obtain ⟨t, ev, h, hh⟩ := parse_spec vals hv
   refine ⟨t, ev, h, fun earlier host => ?_⟩
-  have hne := Valid_examples_ne_nil hv
+  have hne := wf_all_ne_nil hv
   exact (matchHost_spec vals hne _ (matchAll_fst_holds vals hne earlier t [] hh) host).2
 
+/-- The verdict does not depend on the shape of the tree: any binary tree holding the same left-to-right sequence of values as
+the one parse built (whatever rotations happened in between) answers every host correctly. -/
+theorem match_any_shape (vals : List Bytes) (hv : ∀ v ∈ vals, Wf v) (t0 t : Tree Bytes) (ev : List Event)
+    (hp : parse vals = .ok t0 ev) (hshape : Tree.inorder t = Tree.inorder t0) (host : Bytes) :
+    (matchHost t host).2 = true ↔ ∃ v ∈ vals, Matches v host := by
+  obtain ⟨t1, ev1, h, hh⟩ := parse_spec vals hv
+  rw [hp] at h
+  injection h with h1 _
+  subst h1
+  exact (matchHost_spec vals (wf_all_ne_nil hv) t (hh.of_inorder_eq hshape) host).2
+
 /-- The verdicts do not depend on the order of the values or on repetitions. -/
-theorem match_order_irrelevant (vals vals' : List Bytes) (hv : ∀ v ∈ vals, Valid v) (hsame : ∀ v, v ∈ vals ↔ v ∈ vals') :
+theorem match_order_irrelevant (vals vals' : List Bytes) (hv : ∀ v ∈ vals, Wf v) (hsame : ∀ v, v ∈ vals ↔ v ∈ vals') :
     ∃ t ev t' ev', parse vals = .ok t ev ∧ parse vals' = .ok t' ev' ∧
       ∀ host, (matchHost t host).2 = (matchHost t' host).2 := by
-  have hv' : ∀ v ∈ vals', Valid v := fun v h => hv v ((hsame v).mpr h)
+  have hv' : ∀ v ∈ vals', Wf v := fun v h => hv v ((hsame v).mpr h)
   obtain ⟨t, ev, h, hm⟩ := match_iff_partial vals hv
   obtain ⟨t', ev', h', hm'⟩ := match_iff_partial vals' hv'
   refine ⟨t, ev, t', ev', h, h', fun host => ?_⟩
@@ -116,9 +127,13 @@ theorem multi_dot_compare_counterexample : Domain.compare [46, 46, 97] [46, 46, 
 
 /-! ### non-vacuity -/
 
-/-- well-formed: `example.com`, `.example.com`, `a.`, `A-b_1.x`; not well-formed: `.`, `..a`, `` -/
-example : Valid [101, 46, 99] ∧ Valid [46, 101, 46, 99] ∧ Valid [97, 46] ∧ ¬ Valid [46] ∧ ¬ Valid [46, 46, 97] ∧ ¬ Valid [] := by
+/-- accepted: `e.c`, `.e.c`, `a.`, `.`, `.a..b`; excluded: `..a`, `..`, `` -/
+example : Wf [101, 46, 99] ∧ Wf [46, 101, 46, 99] ∧ Wf [97, 46] ∧ Wf [46] ∧ Wf [46, 97, 46, 46, 98] ∧
+    ¬ Wf [46, 46, 97] ∧ ¬ Wf [46, 46] ∧ ¬ Wf [] := by
   decide
+/-- the single dot works, also repeated and mixed with names that end in a dot: `. a. . b`: hosts `x.`, `a.` match, `b` matches, `a` does not -/
+example : verdicts [[46], [97, 46], [46], [98]] [[120, 46], [97, 46], [98], [97]] = some [true, true, true, false] := by
+  decide +kernel
 /-- `.b.c` matches `b.c`, `a.b.c`, `A.B.C`, `.b.c` (leading dot of the host ignored) but not `ab.c`, `x-b.c`, `c`, `` -/
 example : Matches [46, 98, 46, 99] [98, 46, 99] ∧ Matches [46, 98, 46, 99] [97, 46, 98, 46, 99] ∧
     Matches [46, 98, 46, 99] [65, 46, 66, 46, 67] ∧ Matches [46, 98, 46, 99] [46, 98, 46, 99] ∧
